@@ -1,13 +1,14 @@
 package main
 
 import (
-	"runtime"
-	"os"
 	"bufio"
 	"fmt"
 	"io"
+	"os"
 	"os/exec"
+	"runtime"
 	"sort"
+	"strconv"
 	"strings"
 	"time"
 )
@@ -30,7 +31,6 @@ func ConstInt(v int64) *Term { return &Term{Op: "const", Sort: IntSort, Val: uin
 var IntMode = os.Getenv("VERIF_INTMODE") != ""
 
 var intOpMap = map[string]string{"bvadd": "+", "bvsub": "-", "bvneg": "-", "bvmul": "*", "bvslt": "<", "bvsle": "<=", "bvsgt": ">", "bvsge": ">=", "intdiv": "div", "intmod": "mod"}
-
 
 func (s Sort) String() string {
 	if s.Kind == 'B' {
@@ -500,22 +500,35 @@ func Resize(a *Term, to int, signed bool) *Term {
 // ---------- solver ----------
 
 type Solver struct {
-	cmd      *exec.Cmd
-	in       io.WriteCloser
-	out      *bufio.Reader
-	declared map[string]Sort
-	stack    []*Term // asserted path condition, one push per entry
-	Queries  int
-	Time     time.Duration
-	Log      io.Writer
-	timeoutMs int
+	cmd        *exec.Cmd
+	in         io.WriteCloser
+	out        *bufio.Reader
+	declared   map[string]Sort
+	stack      []*Term // asserted path condition, one push per entry
+	Queries    int
+	Time       time.Duration
+	Log        io.Writer
+	timeoutMs  int
 	pendingPop bool
-	nameSeq int
-	hung    bool // the watchdog killed the solver: it ignored its own per-query timeout
+	nameSeq    int
+	hung       bool // the watchdog killed the solver: it ignored its own per-query timeout
 }
 
+// z3MemMB: memory limit per solver process (z3 -memory:). A query that hits it ends as an error, i.e. inconclusive;
+// without a limit one runaway query (measured: 13.8 GB) gets the whole run killed by the kernel.
+var z3MemMB = func() int {
+	if v, err := strconv.Atoi(os.Getenv("VERIF_Z3_MEM_MB")); err == nil && v > 0 {
+		return v
+	}
+	return 6000
+}()
+
 func NewSolver(bin string, timeoutMs int) (*Solver, error) {
-	args := []string{"-in"}
+	return NewSolverMem(bin, timeoutMs, z3MemMB)
+}
+
+func NewSolverMem(bin string, timeoutMs int, memMB int) (*Solver, error) {
+	args := []string{"-in", fmt.Sprintf("-memory:%d", memMB)}
 	if strings.Contains(bin, "cvc5") {
 		args = []string{"--incremental", "--lang=smt2", "--produce-models", fmt.Sprintf("--tlimit-per=%d", timeoutMs)}
 		if extra := os.Getenv("VERIF_CVC5_ARGS"); extra != "" {
